@@ -114,19 +114,99 @@ def diff_tree(real, model, path="", exact=True, out=None, limit=20):
     return out
 
 
+_YAML_CACHE: dict = {}
+
+
+def _cached_yaml():
+    """The real loader re-parses every YAML file ~230 times per environment; the harness
+    memoises `yaml.load` on the *text* it is given (a pure library call) and hands out deep
+    copies, so edits to the files are still seen and results are never shared."""
+    import copy
+    import hashlib
+    import _gettsim.policy_environment as pe
+    if getattr(pe.yaml, "_verif_cached", False):
+        return
+    orig = pe.yaml.load
+
+    def load(text, Loader=None, **kw):  # noqa: N803
+        key = hashlib.sha1(text.encode() if isinstance(text, str) else text).hexdigest()
+        if key not in _YAML_CACHE:
+            _YAML_CACHE[key] = orig(text, Loader=Loader, **kw)
+        return copy.deepcopy(_YAML_CACHE[key])
+
+    class _Y:
+        def __getattr__(self, name):
+            return getattr(orig.__globals__["__builtins__"], name, None) if False else getattr(__import__("yaml"), name)
+    shim = _Y()
+    shim.load = load
+    shim._verif_cached = True
+    pe.yaml = shim
+
+
 def real_params(date: datetime.date):
     from _gettsim.policy_environment import set_up_policy_environment
     import warnings
+    _cached_yaml()
     with warnings.catch_warnings():
         warnings.simplefilter("ignore")
         return set_up_policy_environment(date)
 
 
-def model_envs(ordinals: list[int]) -> list:
-    ops = [load_raw_op()] + [{"op": "env", "date": o} for o in ordinals]
-    outs = common.driver([json.dumps(o, ensure_ascii=False) for o in ops])
+def _real_one(o):
+    import common as c
+    c.quiet()
+    d = datetime.date.fromordinal(o)
+    try:
+        p, f = real_params(d)
+        fs = sorted((n, fn.__module__, fn.__name__) for n, fn in f.items())
+        return ("ok", p, fs)
+    except Exception as e:  # noqa: BLE001
+        return ("err", f"{type(e).__name__}: {e}"[:500], None)
+
+
+def real_envs_parallel(ordinals: list[int], procs: int = 12) -> list:
+    import multiprocessing as mp
+    if len(ordinals) <= 4:
+        return [_real_one(o) for o in ordinals]
+    # a watchdog per environment: a loader that recurses day by day must not hang the check
+    pool = mp.get_context("fork").Pool(min(procs, len(ordinals)))
+    try:
+        pending = [pool.apply_async(_real_one, (o,)) for o in ordinals]
+        out = []
+        import time
+        deadline = time.time() + 90 + 2.0 * len(ordinals)
+        for p in pending:
+            try:
+                out.append(p.get(timeout=max(1.0, deadline - time.time())))
+            except mp.TimeoutError:
+                out.append(("err", "TimeoutError: set_up_policy_environment did not finish", None))
+        return out
+    finally:
+        pool.terminate()
+
+
+def _model_chunk(args):
+    kind, ordinals = args
+    ops = [load_raw_op()] + [{"op": kind, "date": o} for o in ordinals]
+    return common.driver([json.dumps(o, ensure_ascii=False) for o in ops], build=False)[1:]
+
+
+def model_envs(ordinals: list[int], procs: int = 12) -> list:
+    common.ensure_driver()
+    if len(ordinals) <= 6:
+        outs = _model_chunk(("env", ordinals))
+    else:
+        import multiprocessing as mp
+        k = min(procs, len(ordinals))
+        chunks = [ordinals[i::k] for i in range(k)]
+        with mp.get_context("fork").Pool(k) as pool:
+            parts = pool.map(_model_chunk, [("env", c) for c in chunks])
+        outs = [None] * len(ordinals)
+        for i, part in enumerate(parts):
+            for j, o in enumerate(part):
+                outs[i + j * k] = o
     res = []
-    for o in outs[1:]:
+    for o in outs:
         j = json.loads(o)
         res.append(("ok", dec_y(j["ok"])) if "ok" in j else ("err", j.get("err", j)))
     return res
